@@ -46,6 +46,25 @@ func zzPickCfg() zzCfg {
 	return zzConfigs[verif.Choose("config", n)]
 }
 
+// zzPickCfgWatch: configurations for the harnesses that run real watcher goroutines.  The thorough
+// tier is the union of two explorations: the quick data bounds under a larger delay bound, and larger
+// data bounds (capacities up to 8 for kind watches, up to 4 for single-resource watches, a second publish/receive round for capacities <= 2) under the quick
+// delay bound.
+func zzPickCfgWatch(nMore int) (zzCfg, int) {
+	if verif.Tier() != "thorough" {
+		return zzConfigs[verif.Choose("config", 4)], 1
+	}
+	if verif.Choose("moreData", 2) == 0 {
+		return zzConfigs[verif.Choose("config", 4)], 1 // delay bound of the registry (1)
+	}
+	verif.SetPreemptions(0)
+	cfg := zzConfigs[verif.Choose("config", nMore)]
+	if cfg.capacity <= 2 {
+		return cfg, 2
+	}
+	return cfg, 1
+}
+
 // zzCollectionAt builds a collection in an arbitrary reachable state: write
 // position W (symbolic), current capacity cfg.capacity, every retained slot
 // holding the event of its position (tagged), ids from idOf.
@@ -198,7 +217,7 @@ func zzPublish(c *ResourceCollection, id resource.ID, tag int64) {
 // while more events are published; it is errored only if it lags by more than
 // the capacity, and it never stops silently.
 func ZZ_ResumeIsSuffix() {
-	cfg := zzPickCfg()
+	cfg, rounds := zzPickCfgWatch(len(zzConfigs))
 	W := zzSymW(cfg)
 	c := zzCollectionAt(cfg, W, func(int64) resource.ID { return "x" })
 	P := verif.Int64("P")
@@ -230,10 +249,6 @@ func ZZ_ResumeIsSuffix() {
 			return ev
 		}
 		return <-single
-	}
-	rounds := 1
-	if verif.Tier() == "thorough" {
-		rounds = 2
 	}
 	for r := 0; r < rounds && !errored; r++ {
 		if verif.Choose("settle", 2) == 1 {
